@@ -9,7 +9,8 @@ CHECKS = {
           "lattice of PSD inputs x exponents x ridge settings x methods, 80-bit residual oracle",
           "Every matrix scale*Q*diag(lambda)*Q^T with lambda a sorted multiset over {0,1e-8,1e-4,1e-2,1} (top 1), Q in "
           "{I, Householder, generic(seed)}, scale in {1e-6,1,1e6}, n in 1..5 (6 thorough), padding {0,2} ({0,1,3}), p in 1..8, "
-          "three (five) ridge settings, Newton / eigh / LOBPCG-deflated, float64 and float32, plus all-padding inputs, is passed to the "
+          "three (five) ridge settings, Newton / eigh / LOBPCG-deflated (relative, absolute, padded), float64 and float32, Newton with "
+          "iteration budgets {4,8,12} (2..16) below convergence, plus all-padding inputs, is passed to the "
           "real routine exactly as the optimizer calls it (vmapped, traced p and padding_start). On every result: finite, exactly zero "
           "on padding, symmetric, estimate <= true lambda_max, and (float64, kappa_reg <= 1e8, reported error < 0.1) the true residual "
           "max|X^p(A+dI)-I| in 80-bit arithmetic, minimised over the admissible ridge interval, is bounded by the reported error plus "
@@ -38,7 +39,8 @@ CHECKS = {
           "thorough S,P in 1..3, <=3 nan, T=6); every path of the dumped graph is replayed on the real optimizer and a poisoned statistic "
           "must never change the stored preconditioner. (b) BFS over every history over {gA, g0, NaN, Inf, 2^40, 2^-40, 2^100} of length "
           "<= 3 (4) with <= 2 (3) fault events for mode x threshold {0,1e-30,0.1,1e30} x epsilon {1e-6,0} x {Newton,eigh} x interval "
-          "{1,2} x {float32,float64}: after every transition each stored preconditioner is bit-identical to before or (refresh step and "
+          "{1,2} x {float32,float64}, plus float32 pmap over 3 devices (4 statistics padded to 6 work items) and all-1x1-statistics "
+          "configurations: after every transition each stored preconditioner is bit-identical to before or (refresh step and "
           "reported error finite and below the threshold); all stored preconditioner leaves finite; updates finite on histories of "
           "finite moderate gradients.",
           "Fault values beyond the seven classes and fault positions inside a tensor (one fixed entry) are not covered; one known "
@@ -59,7 +61,8 @@ CHECKS = {
           "distributed_shampoo: 6 graft types x {full, low-rank +2, -2, frequent directions, int16-quantized under pmap} x start {0,2} "
           "({0..3}) x {no exclusion, skip_preconditioning_rank_lt, skip_preconditioning_dim_size_gt}; tearfree: {SGD, RMSPROP, ADAFACTOR} "
           "x {Shampoo, Sketchy} x start x skip rules; every history over {gA,gB,gSeed,g0} of length <= 3 (4) with momentum, Nesterov and "
-          "weight decay off and lr=1. Per leaf and step: before the start step and for excluded leaves the update equals the closed-form "
+          "weight decay off and lr=1; the grafting optimizer's own hyper-parameters (diagonal epsilon 1e-3, second-moment decay 1, "
+          "tiny gradients after ordinary ones; tearfree graft decay 1) as extra variants. Per leaf and step: before the start step and for excluded leaves the update equals the closed-form "
           "grafting step (1e-6); afterwards its norm equals the grafting step's norm (1e-5), it is parallel to the gradient "
           "preconditioned with the matrices the stored (packed, quantized, sketched) preconditioners denote (angle bounded by the "
           "float32 rounding bound of that application, at least 1.5e-3), or zero when that gradient is zero.",
@@ -72,7 +75,8 @@ CHECKS = {
           "(statistics of different sizes next to the larger companion, so that padding to a common size happens), and tearfree layouts "
           "4x2, 6x2 (4x4) with block 2, the distributed_shampoo differential also under jax.pmap over 2 (4) forced host devices (more "
           "statistics than devices) against the separate-leaf single-device run, every per-block gradient scale vector over {2^-20, 1, 2^20} (at most 3 non-unit scales when there are "
-          "more than 4 blocks), graft NONE and SGD, companions {small, larger than every block, 2^20-scaled}, every history over "
+          "more than 4 blocks) plus one block at a time with an overflowing Gram matrix (that block is not judged, the others are), "
+          "graft NONE and SGD, companions {small, larger than every block, 2^20-scaled, a vector whose key sorts first}, every history over "
           "{gA,gB} of length <= 2 (3): each block of the blocked tensor must be updated exactly like the same block as a separate "
           "tensor (1e-3 of the block's max-norm), with SGD grafting the update must be the separately preconditioned blocks rescaled by "
           "the parameter-level norm ratio, and the update must not change when a companion parameter is added.",
@@ -98,9 +102,12 @@ CHECKS = {
           "assertion with a message, LOBPCG's input validation) - any other exception is a violation; the update tree equals the "
           "parameters in structure/shape/dtype; sig(update(S0)) == S0 (PyTreeDef ==, shapes, dtypes), which is inductive because "
           "traced control flow cannot depend on values; sharded: init state, declared shapes/dtypes and partition specs describe one "
-          "tree. Every <=1-deviation configuration is also run concretely for 3 updates and must reproduce the abstract signature.",
+          "tree. Every <=1-deviation configuration is also run concretely for 3 updates and must reproduce the abstract signature. "
+          "jax_enable_x64 with float32 parameters is an environment dimension (2-deviation distributed_shampoo, sm3, tearfree, a "
+          "384-configuration slice of the layout cluster); bfloat16 trees are a parameter-dtype dimension.",
           "Value-dependent failures belong to C03; combinations of 3+ simultaneous deviations outside the cluster are not covered; "
-          "vmap(axis_name) stands in for pmap in the abstract runs (pmap is used in the concrete ones).", "DESIGN.md §4 C07"),
+          "vmap(axis_name) stands in for pmap in the abstract runs (pmap is used in the concrete ones). Two known findings (bfloat16 "
+          "parameters; tearfree under x64) are listed in known_findings.json.", "DESIGN.md §4 C07"),
   "C09": ("explicit-state BFS over all gradient histories up to depth T through the three real frequent-directions step functions "
           "and through the public optimizers, lock-step with the exact float64 covariance",
           "For rank k in {1,2,3} x decay b in {1,0.5,0.25}: distributed_shampoo._fd_update_root iterated directly (factors from "
@@ -122,7 +129,9 @@ CHECKS = {
           "relative 1e-12, relative 1e-2) against the exact root with the complement averaged over the unpadded dimensions (1e-8); for "
           "the relative ridge 1e-2 the one scalar the routine does not report (the ridge actually added, epsilon times a power-iteration "
           "estimate) is recovered from the returned constant by bisection and must lie in [0.5,1] x epsilon x lambda_max; preconditioned_grad with mixed full/packed preconditioners for every "
-          "gradient shape over dims {3,5,6} of rank 1..3 and every has_zeros pattern against dense tensordot (1e-12).",
+          "gradient shape over dims {3,5,6} of rank 1..3 and every has_zeros pattern against dense tensordot (1e-12); and through the "
+          "public optimizer for r in {1,-1,2,-2} on matrices with an axis at, just above and just below d = |r|+2: non-admissible axes "
+          "must store the exact dense root of the stored statistic, admissible ones the [d,|r|+2] packed root.",
           "Spectra without a gap at the cut are excluded (the denoted matrix is not unique there); d > 10.", "DESIGN.md §4 C10"),
   "C11": ("exhaustive lattice enumeration (depth 1) of the real QuantizedValue quantize/dequantize/requantize over all float32 "
           "exponents x bucket boundaries",
@@ -131,7 +140,8 @@ CHECKS = {
           "thorough, every 64th in quick); layouts rank 1..3, eager and jitted; every shape over dims {1,2,3} of rank 1..3 (unit axes in every position) with the layout "
           "of integers, bucket sizes (one per column = x.shape[1:]) and dequantized tensor checked; square matrices with extract_diagonal "
           "(also for the pass-through dtypes); constant and "
-          "zero columns; float32/bfloat16 pass-through. Oracle per element in float64: half-bucket bound, no most-negative integer, "
+          "zero columns; float32/bfloat16 pass-through; and the optimizer's own quantized state under pmap over all histories (every "
+          "stored QuantizedValue is a fixed point of dequantize->quantize, carried preconditioners keep their bits). Oracle per element in float64: half-bucket bound, no most-negative integer, "
           "exact zeros and diagonal, identical integers after re-quantisation.",
           "XLA CPU backend (flush-to-zero) is the platform observed; tensors of rank > 3 not covered. Two known findings (bucket "
           "underflow, FLT_MAX) are listed in known_findings.json.", "DESIGN.md §4 C11"),
@@ -140,7 +150,8 @@ CHECKS = {
           "For 12 shapes (quick) / all 120 shapes of rank 1..4 with dims <= 3 (thorough) x beta2 in {1,0.5,0.999} x beta1 in {0,0.9} x "
           "weight decay x normalisation, every history over {gA,gB,g0,gSeed} of length <= 4 (5) is executed; after every transition the "
           "cover invariant (min over a coordinate's accumulators >= exact decayed sum, exact for dyadic decay), monotonicity for "
-          "beta2=1, the per-coordinate step bound against diagonal AdaGrad/RMSProp and rank-1 equality are evaluated.",
+          "beta2=1, the per-coordinate step bound against diagonal AdaGrad/RMSProp and rank-1 equality (with momentum: against the same "
+          "momentum average of diagonal AdaGrad/RMSProp's steps, 3% allowance for the int8 momentum) are evaluated.",
           "Gradient values outside the dyadic alphabet; dims > 3.", "DESIGN.md §4 C12"),
   "C13": ("explicit-state enumeration of the product device count x number of statistics x representation x all gradient "
           "histories through jax.pmap on forced host devices and through the sharded optimizer under real meshes, differential oracle "
@@ -156,7 +167,8 @@ CHECKS = {
           "DESIGN.md §4 C13"),
   "C14": ("explicit-state BFS over all gradient histories with a crash/restore transition at every reached state (serialize, fresh "
           "optimizer object and trace, restore, continue), bitwise differential oracle",
-          "For 12 optimizers (distributed_shampoo full / eigh+schedule / pmap+quantized / compressed / frequent-directions / sharded / "
+          "For 14 optimizers (distributed_shampoo full / eigh+schedule / scheduled refresh interval stepped op by op without jit / "
+          "scheduled learning rate under jax_enable_x64 / pmap+quantized / compressed / frequent-directions / sharded / "
           "sharded restored into the target declared by shape_and_dtype_fn / LOBPCG, sm3, tearfree Shampoo / Sketchy / Adafactor-grafted) every state reached by a history over {gA,gB} of length <= 3 (5 "
           "thorough) is serialized with flax msgpack, restored into the init template of a freshly constructed optimizer, and for every "
           "gradient of the alphabet the update and next state from the restored state must be bit-identical to those from the original; "
@@ -169,7 +181,7 @@ CHECKS = {
           "Every configuration within 1 (quick) / 2 (thorough) deviations over 15 Shampoo options (+13 interacting pairs, frequency pairs to depth 5) and 10 Sketchy "
           "options (block size, merge limit, both frequencies, decay, graft type/decay/start/skip rules, ema, nesterov, momentum decay, "
           "weight decay before/after, constant/scheduled lr, sketch rank, epsilon mode, update frequency) on two trees (blocked and "
-          "padded leaves, unit dims, scalar, a (1,5) leaf) is driven through all histories over {gA,gB,g0,gD} (gD: half of the rows scaled 2^-14, so "
+          "padded leaves, unit dims, scalar, a (1,5) leaf, a (6,2,6) leaf with two blocked axes separated by a small one) is driven through all histories over {gA,gB,g0,gD} (gD: half of the rows scaled 2^-14, so "
           "that blocks differ in scale) of length <= 3 (4). Every update leaf is compared with -lr(t)*momentum(wd(graft(second_order("
           "merge+pad(g))))) evaluated in float64 (1e-9 for Shampoo under x64; 2e-4 for float32 Sketchy plus a computed allowance for "
           "the tail>0 switch when the exact escaped mass is zero; leaves on which that switch has a real complement are undecidable, counted "
@@ -184,7 +196,7 @@ CHECKS = {
           "iterates (1e-10), last sketch row zero, FD bracket against the exact covariance, S-AdaGrad alpha = delta + escaped mass, "
           "equality with exact full-matrix AdaGrad whenever the history rank is below the sketch size and delta > 0, for S-AdaGrad the "
           "step actually applied against the post-update (P, e, alpha) (skipped and counted where alpha is below 1e-10 of the spectrum), "
-          "tiny-gradient tasks (scale 2^-24, delta 2^-44), the training loop _compiled_run_dataset over every chunking of every row "
+          "tiny-scale tasks for every algorithm (gradients x 2^-12 / 2^-24, delta 0 and 2^-44), the training loop _compiled_run_dataset over every chunking of every row "
           "sequence, and neighbouring hyper-parameters bound in the same process before the task (module-level caches).",
           "Finite iterates are not part of the property (Ada-FD with delta=0 divides by its zero diagonal term; counted, not judged).",
           "DESIGN.md §4 C16"),
